@@ -3,6 +3,7 @@ C16 — two-way relationships have one canonical representative.
 Property theorems only; helper lemmas are in Proofs/SchemaLemmas.lean.
 -/
 import Jsonapi.Proofs.SchemaLemmas
+import Jsonapi.Proofs.C16Lemmas
 namespace Jsonapi
 open Schema
 
@@ -38,11 +39,13 @@ theorem C16_string_invert (r : Rel) (h2 : r.twoWay) (hs : ¬ r.selfInverse) :
   unfold Rel.string
   rw [C16_normalize_invert r h2 hs]
 
-/-- Every relationship of every type is represented in `Rels()` by its normal form,
-every listed relationship is such a normal form, and nothing is listed twice. -/
+/-- Every relationship of every type is represented in `Rels()` by the normal form of its
+completion (`Schema.complete`: a two-way relationship takes the cardinality of its other
+side from the relationships that point back at it), every listed relationship is such a
+normal form, and nothing is listed twice. -/
 theorem C16_rels (σ : Schema) :
-    (∀ t ∈ σ.types, ∀ r ∈ t.rels.vals, r.normalize ∈ σ.relsSorted) ∧
-    (∀ x ∈ σ.relsSorted, ∃ t ∈ σ.types, ∃ r ∈ t.rels.vals, x = r.normalize) ∧
+    (∀ t ∈ σ.types, ∀ r ∈ t.rels.vals, (σ.complete t r).normalize ∈ σ.relsSorted) ∧
+    (∀ x ∈ σ.relsSorted, ∃ t ∈ σ.types, ∃ r ∈ t.rels.vals, x = (σ.complete t r).normalize) ∧
     σ.relsSorted.Nodup :=
   ⟨fun t ht r hr => (mem_relsSorted σ _).2 ⟨t, ht, r, hr, rfl⟩,
    fun x hx => by
@@ -50,40 +53,200 @@ theorem C16_rels (σ : Schema) :
      exact ⟨t, ht, r, hr, h.symm⟩,
    nodup_relsSorted σ⟩
 
-/-- "Each one-way relationship once, each two-way pair once": a two-way relationship
-and its inverse (which a coherent schema holds on the other side) are the same
-entry, and that entry occurs exactly once. -/
+/-- The completion changes `FromOne` only, and only of a two-way relationship. -/
+theorem C16_complete_fields (σ : Schema) (t : Typ) (r : Rel) :
+    σ.complete t r = { r with fromOne := (σ.complete t r).fromOne } ∧
+    (r.toName = [] → σ.complete t r = r) := by
+  unfold complete
+  by_cases h1 : r.toName = []
+  · rw [if_pos h1]; exact ⟨by cases r; rfl, fun _ => rfl⟩
+  · by_cases h2 : (σ.backRels t r).isEmpty <;> simp [h1, h2]
+
+/-- A two-way relationship and its inverse are the same entry, and the entry of a
+relationship occurs exactly once. (That the relationship a coherent schema holds on the
+other side IS the inverse of the completed one is `C16_rels_coherent`.) -/
 theorem C16_rels_pair_once (σ : Schema) (t : Typ) (ht : t ∈ σ.types) (r : Rel)
     (hr : r ∈ t.rels.vals) (h2 : r.twoWay) (hs : ¬ r.selfInverse) :
-    r.invert.normalize = r.normalize ∧ σ.relsSorted.count r.normalize = 1 :=
-  ⟨C16_normalize_invert r h2 hs,
-   List.count_eq_one_of_mem (nodup_relsSorted σ) ((C16_rels σ).1 t ht r hr)⟩
+    (σ.complete t r).invert.normalize = (σ.complete t r).normalize ∧
+    σ.relsSorted.count (σ.complete t r).normalize = 1 := by
+  refine ⟨?_, List.count_eq_one_of_mem (nodup_relsSorted σ) ((C16_rels σ).1 t ht r hr)⟩
+  have hf := (C16_complete_fields σ t r).1
+  apply C16_normalize_invert
+  · rw [hf]; exact h2
+  · rw [hf]; exact hs
 
 theorem C16_rels_oneway_once (σ : Schema) (t : Typ) (ht : t ∈ σ.types) (r : Rel)
     (hr : r ∈ t.rels.vals) (h1 : r.toName = []) :
     σ.relsSorted.count r = 1 := by
   have := (C16_rels σ).1 t ht r hr
-  rw [C16_normalize_oneway r h1] at this
+  rw [(C16_complete_fields σ t r).2 h1, C16_normalize_oneway r h1] at this
   exact List.count_eq_one_of_mem (nodup_relsSorted σ) this
 
 /-- The list does not depend on how the schema was built: two schemas holding the
-same relationships (types added in any order, maps iterated in any order) give the
-same `Rels()`. -/
+same (completed) relationships give the same `Rels()`. -/
 theorem C16_rels_order (σ₁ σ₂ : Schema)
-    (h : ∀ x, (∃ t ∈ σ₁.types, ∃ r ∈ t.rels.vals, r.normalize = x) ↔
-              (∃ t ∈ σ₂.types, ∃ r ∈ t.rels.vals, r.normalize = x)) :
+    (h : ∀ x, (∃ t ∈ σ₁.types, ∃ r ∈ t.rels.vals, (σ₁.complete t r).normalize = x) ↔
+              (∃ t ∈ σ₂.types, ∃ r ∈ t.rels.vals, (σ₂.complete t r).normalize = x)) :
     σ₁.relsSorted = σ₂.relsSorted :=
   relsSorted_ext σ₁ σ₂ h
 
-/-- In particular for permuted type lists with permuted maps. -/
+/-- In particular for the same types with their maps iterated in any order. (The completion
+reads the NAME of the owning type, so the names are part of the hypothesis now.) -/
 theorem C16_rels_perm (σ₁ σ₂ : Schema)
-    (h : Forall2 (fun t₁ t₂ : Typ => t₁.rels.Perm t₂.rels) σ₁.types σ₂.types) :
+    (h : Forall2 (fun t₁ t₂ : Typ => t₁.name = t₂.name ∧ t₁.rels.Perm t₂.rels) σ₁.types σ₂.types) :
     σ₁.relsSorted = σ₂.relsSorted :=
   relsSorted_forall₂ σ₁ σ₂ h
 
-theorem C16_rels_types_perm (σ₁ σ₂ : Schema) (h : σ₁.types.Perm σ₂.types) :
+/-- ... and for types added in any order, their names being distinct (C14's invariant; the
+completion looks the target type up by name, and of two types with one name `GetType`
+returns the first: see `C16_rels_types_perm_needs_distinct_names`). -/
+theorem C16_rels_types_perm (σ₁ σ₂ : Schema) (h : σ₁.types.Perm σ₂.types)
+    (nd : (σ₁.types.map (·.name)).Nodup) :
     σ₁.relsSorted = σ₂.relsSorted :=
-  relsSorted_types_perm σ₁ σ₂ h
+  relsSorted_types_perm σ₁ σ₂ h nd
+
+/-- The hypothesis of `C16_rels_types_perm` is needed: with two types of one name (a schema the
+API never builds) the completion reads the first, and the listing depends on the order. -/
+theorem C16_rels_types_perm_needs_distinct_names :
+    ∃ σ₁ σ₂ : Schema, σ₁.types.Perm σ₂.types ∧ σ₁.relsSorted ≠ σ₂.relsSorted := by
+  let ra : Rel := { fromType := gs "a", fromName := gs "x", toOne := true,
+                    toType := gs "b", toName := gs "y", fromOne := false }
+  let rb : Rel := { fromType := gs "b", fromName := gs "y", toOne := true,
+                    toType := gs "a", toName := gs "x", fromOne := false }
+  let a1 : Typ := { name := gs "a", attrs := [], rels := [(gs "x", ra)] }
+  let a2 : Typ := { name := gs "a", attrs := [], rels := [] }
+  let b : Typ := { name := gs "b", attrs := [], rels := [(gs "y", rb)] }
+  refine ⟨⟨[a1, a2, b]⟩, ⟨[a2, a1, b]⟩, List.Perm.swap _ _ _, ?_⟩
+  intro h
+  have h1 : rb.invert ∈ (Schema.mk [a2, a1, b]).relsSorted := by
+    rw [relsSorted, (List.mergeSort_perm _ _).mem_iff]; decide
+  rw [← h, relsSorted, (List.mergeSort_perm _ _).mem_iff] at h1
+  revert h1; decide
+
+/-! ### The coherent schema (the last clause of the property)
+
+`Schema.Check` never compares the cardinality flags of the two sides of a two-way pair, and a
+type built from a struct always has `FromOne = false`: before the repair of `buildRels` the two
+sides of an ordinary struct-built pair normalised to two different values and `Rels()` listed
+the pair twice (`C16_unrepaired_counterexample`). `buildRels` now completes each relationship
+from the other side (`Schema.complete`) before normalising it, and the clause holds. -/
+
+/-- A coherent schema - C14's invariant (`Inv`: distinct type names, relationship names unique
+within a type and equal to their map keys), `Check` reports nothing, every relationship's
+`FromType` is its owning type - lists each one-way relationship once and each two-way pair once:
+
+(i) every one-way relationship occurs exactly once, as itself;
+(ii) for every two-way relationship `r` of a type `t`, the relationship `r'` that `Check` looks
+for in the target type exists; the two are completed with each other's `ToOne`, the completed
+values are inverses of each other and normalise to ONE value, which occurs exactly once; `Normalize`
+keeps at least one of `r`, `r'`, and both only when `r` is its own inverse - in which case `r'`
+is `r` itself (same type, same relationship): a self-inverse relationship is its own pair;
+(iii) every entry is one of those;
+(iv) the entries are, up to order, the completions of the ends `Normalize` keeps (a duplicate-free
+list), so their number is the number of one-way relationships plus the number of two-way pairs,
+a pair being counted at the one end that `Normalize` keeps (by (ii) there is exactly one). -/
+theorem C16_rels_coherent (σ : Schema) (hI : Inv σ) (hc : σ.check = [])
+    (ho : ∀ t ∈ σ.types, ∀ r ∈ t.rels.vals, r.fromType = t.name) :
+    (∀ t ∈ σ.types, ∀ r ∈ t.rels.vals, r.toName = [] → σ.relsSorted.count r = 1) ∧
+    (∀ t ∈ σ.types, ∀ r ∈ t.rels.vals, r.toName ≠ [] →
+      ∃ r', σ.getType r.toType ∈ σ.types ∧ r' ∈ (σ.getType r.toType).rels.vals ∧
+        r'.fromName = r.toName ∧ r'.toName = r.fromName ∧ r'.toType = t.name ∧
+        σ.complete t r = { r with fromOne := r'.toOne } ∧
+        σ.complete (σ.getType r.toType) r' = { r' with fromOne := r.toOne } ∧
+        σ.complete (σ.getType r.toType) r' = (σ.complete t r).invert ∧
+        (σ.complete t r).normalize = (σ.complete (σ.getType r.toType) r').normalize ∧
+        σ.relsSorted.count (σ.complete t r).normalize = 1 ∧
+        (r.normalize = r ∨ r'.normalize = r') ∧
+        (r.normalize = r → r'.normalize = r' → r.selfInverse) ∧
+        (r.selfInverse → σ.getType r.toType = t ∧ r' = r)) ∧
+    (∀ x ∈ σ.relsSorted, ∃ t ∈ σ.types, ∃ r ∈ t.rels.vals,
+      (r.toName = [] ∧ x = r) ∨ (r.toName ≠ [] ∧ x = (σ.complete t r).normalize)) ∧
+    σ.relsSorted.Perm ((σ.ends.filter (fun e => decide (e.2.normalize = e.2))).map
+      (fun e => σ.complete e.1 e.2)) ∧
+    ((σ.ends.filter (fun e => decide (e.2.normalize = e.2))).map (fun e => σ.complete e.1 e.2)).Nodup ∧
+    σ.relsSorted.length =
+      σ.ends.countP (fun e => decide (e.2.toName = [])) +
+      σ.ends.countP (fun e => decide (e.2.toName ≠ []) && decide (e.2.normalize = e.2)) := by
+  have h : Coherent σ := ⟨hI, hc, ho⟩
+  refine ⟨?_, ?_, ?_, (relsSorted_perm_canon h).1, (relsSorted_perm_canon h).2, ?_⟩
+  · intro t ht r hr h1
+    exact C16_rels_oneway_once σ t ht r hr h1
+  · intro t ht r hr h2
+    obtain ⟨r', ht', hr', ha, hb, hcc, h2', c1, cinv, hnorm, hself⟩ := coherent_pair h ht hr h2
+    have hn' : (σ.getType r.toType).name = r.toType := (target_mem hc ht hr).2
+    have hfn : r.fromName ≠ [] := fromName_ne_nil (hI.2 t ht).2 hr
+    have c2 : σ.complete (σ.getType r.toType) r' = { r' with fromOne := r.toOne } := by
+      rw [cinv, c1]
+      obtain ⟨a1, a2, a3, a4, a5, a6⟩ := r
+      obtain ⟨b1, b2, b3, b4, b5, b6⟩ := r'
+      have e1 := ho _ ht' _ hr'
+      have e2 := ho _ ht _ hr
+      simp only at ha hb hcc e1 e2 hn'
+      simp only [Rel.invert, Rel.mk.injEq]
+      exact ⟨by rw [e1, hn'], ha.symm, trivial, by rw [hcc, e2], hb.symm, trivial⟩
+    have hcp := Rel.canon_pair (r := r) (r' := r') (by rw [ho _ ht' _ hr', hn']) ha
+      (by rw [hcc, ho _ ht _ hr]) hb h2 hfn
+    exact ⟨r', ht', hr', ha, hb, hcc, c1, c2, cinv, hnorm.symm,
+      List.count_eq_one_of_mem (nodup_relsSorted σ) ((C16_rels σ).1 t ht r hr),
+      hcp.1, hcp.2, hself⟩
+  · intro x hx
+    obtain ⟨t, ht, r, hr, e⟩ := (C16_rels σ).2.1 x hx
+    refine ⟨t, ht, r, hr, ?_⟩
+    by_cases h1 : r.toName = []
+    · left; refine ⟨h1, ?_⟩
+      rw [e, (C16_complete_fields σ t r).2 h1, C16_normalize_oneway r h1]
+    · exact .inr ⟨h1, e⟩
+  · rw [(relsSorted_perm_canon h).1.length_eq, List.length_map, ← List.countP_eq_length_filter]
+    simp only [ne_eq, decide_not]
+    refine countP_split _ _ ?_ _
+    intro e he
+    have : e.2.toName = [] := of_decide_eq_true he
+    exact decide_eq_true (C16_normalize_oneway e.2 this)
+
+/-- The struct-built pair users.posts (`[]string`, api:"rel,posts,author") / posts.author
+(`string`, api:"rel,users,posts"): `BuildType` leaves `FromOne` false on both sides. -/
+def C16_usersPosts : Schema :=
+  { types := [
+      { name := gs "users", attrs := [],
+        rels := [(gs "posts", { fromType := gs "users", fromName := gs "posts", toOne := false,
+                                toType := gs "posts", toName := gs "author", fromOne := false })] },
+      { name := gs "posts", attrs := [],
+        rels := [(gs "author", { fromType := gs "posts", fromName := gs "author", toOne := true,
+                                 toType := gs "users", toName := gs "posts", fromOne := false })] }] }
+
+/-- The listing before the repair: the set of the plain normal forms. -/
+def Schema.relSetUnrepaired (s : Schema) : List Rel :=
+  dedup (s.types.flatMap (fun t => t.rels.vals.map Rel.normalize))
+
+theorem C16_usersPosts_inv : Inv C16_usersPosts := by
+  refine ⟨by decide, ?_⟩
+  intro t ht
+  simp only [C16_usersPosts, List.mem_cons, List.not_mem_nil, or_false] at ht
+  rcases ht with rfl | rfl
+  · exact ⟨by decide, ⟨by decide, by decide, by decide, by decide, by decide⟩⟩
+  · exact ⟨by decide, ⟨by decide, by decide, by decide, by decide, by decide⟩⟩
+
+/-! Non-vacuity of `C16_rels_coherent`: the struct-built schema satisfies its hypotheses, and
+its pair is listed once, with the cardinalities of both sides. -/
+example :
+    Inv C16_usersPosts ∧ C16_usersPosts.check = [] ∧
+    (∀ t ∈ C16_usersPosts.types, ∀ r ∈ t.rels.vals, r.fromType = t.name) ∧
+    C16_usersPosts.relSet = [{ fromType := gs "posts", fromName := gs "author", toOne := true,
+                               toType := gs "users", toName := gs "posts", fromOne := false }] ∧
+    C16_usersPosts.relsSorted.length = 1 :=
+  ⟨C16_usersPosts_inv, by decide, by decide, by decide,
+   by rw [relsSorted, (List.mergeSort_perm _ _).length_eq]; decide⟩
+
+/-- Without the completion the same schema - on which `Check` reports nothing - is listed with
+TWO entries for its one pair: the defect the repair of `buildRels` removes. -/
+theorem C16_unrepaired_counterexample :
+    C16_usersPosts.check = [] ∧
+    C16_usersPosts.relSetUnrepaired.length = 2 ∧
+    (C16_usersPosts.relSetUnrepaired.mergeSort Rel.le).length = 2 ∧
+    C16_usersPosts.relsSorted.length = 1 := by
+  refine ⟨by decide, by decide, ?_, ?_⟩
+  · rw [(List.mergeSort_perm _ _).length_eq]; decide
+  · rw [relsSorted, (List.mergeSort_perm _ _).length_eq]; decide
 
 /-! Non-vacuity: the adversarial names of the property text. -/
 example :
@@ -99,10 +262,14 @@ example :
 #print axioms C16_normalize_invert
 #print axioms C16_string_invert
 #print axioms C16_rels
+#print axioms C16_complete_fields
 #print axioms C16_rels_pair_once
 #print axioms C16_rels_oneway_once
 #print axioms C16_rels_order
 #print axioms C16_rels_perm
 #print axioms C16_rels_types_perm
+#print axioms C16_rels_types_perm_needs_distinct_names
+#print axioms C16_rels_coherent
+#print axioms C16_unrepaired_counterexample
 
 end Jsonapi
